@@ -202,6 +202,9 @@ def check_offset_fields(ctx, rep):
                 for sp in signpos:
                     if "const %d, const %d" % sp in r:
                         return True
+            # `text.starts_with('+')` is the same test when the sign is the first character of the scanned pattern
+            if g.op == truth and (0, 1) in signpos and re.search(r"str>::starts_with\(.*, const 43\)", r):
+                return True
         return False
 
     if east and west and all(plus_guard(x, "True") for x in east) and all(plus_guard(x, "False") for x in west):
